@@ -259,6 +259,10 @@ def stages_C05(tier):
     out.append(Stage("mc-small-logic", "MC_VM", mc_vm_cfg("logic", 5, operand_mod=32), kind="mc", workers=vf.NCPU))
     for fam, n in [("builtin", 4), ("mixed", 3), ("access", 3)]:
         out.append(prog_stage("prog-%s-n%d" % (fam, n), fam, n))
+    # oversize: shapes whose jumps overflow the small operand range, inflated to real size
+    out.append(Stage("oversize", "MC_VM",
+                     mc_vm_cfg("oversize", 4 if tier == "quick" else 5, operand_mod=32, emit="ovcases", invariants=("EmitOv",)),
+                     "C05OV", modes="struct:noopt,struct:opt,none:noopt"))
     ev = 7 if tier == "quick" else 2
     for fam, n in [("builtin", 5), ("mixed", 4), ("logic", 4), ("coll", 4)]:
         out.append(trace_stage("trace-%s" % fam, fam, n, ev, max_runs=3000 if tier == "quick" else 20000))
@@ -270,7 +274,10 @@ C05_RULE = ("(a) TLC model checking of MC_VM: every expression of each family up
             "compiler's bytes compared with the specification's compiler (drift diagnostic); (c) real runs recorded "
             "through the verif hook and validated event by event against VM!Step on the real bytes: verdict-bearing "
             "are a pop on an empty stack, an unclean exit (values or scopes left), an ill-formed real program "
-            "(VM!WellFormed evaluated by TLC on the real bytes and constants); non-trivial = a validated real run")
+            "(VM!WellFormed evaluated by TLC on the real bytes and constants); (d) oversize: every expression of family "
+            "'oversize' (operand range 32) containing a literal longer than the range, inflated by the harness to 23000 "
+            "elements so the same jump offsets exceed 65535: Compile must reject it or its runs must conform; "
+            "non-trivial = a validated real run or an oversized shape")
 
 
 def drop_prog_drift(acc):
@@ -293,8 +300,159 @@ def check_C05(tier):
                        assumptions=EVAL_ASSUME + ["the verif hook reports the machine state after each instruction"])
 
 
-CHECKS = {"C01": check_C01, "C05": check_C05}
-STAGES = {"C01": stages_C01, "C05": stages_C05}
+# ---------------------------------------------------------------------------
+# C06
+
+def stages_C06(tier):
+    n = 4 if tier == "quick" else 5
+    out = [Stage("mc-alloc-n%d" % (3 if tier == "quick" else 4), "MC_VM",
+                 mc_vm_cfg("alloc", 3 if tier == "quick" else 4, invariants=("Conforms", "BudgetBounds", "RunsClean")),
+                 kind="mc", workers=vf.NCPU),
+           Stage("alloc-n%d" % n, "MC_Expr", gen_cfg("alloc", n), "C06", modes="struct:noopt,none:noopt")]
+    out.append(Stage("alloc-sim", "MC_Expr", gen_cfg("alloc", 10, maxclosure=3), "C06", modes="struct:noopt,none:noopt",
+                     simulate=200 if tier == "quick" else 2000, depth=12, warm=False))
+    return out
+
+
+C06_RULE = ("(a) TLC: MC_VM on family 'alloc' (array/map literals, ranges between environment members - ascending, equal, "
+            "empty, descending -, map/filter/count over them, sums of len) x budgets 1..7: Conforms, BudgetBounds (a "
+            "successful run created fewer elements than the budget); (b) every expression of the family up to the node "
+            "budget x every member assignment x budgets 1..7 run for real with vm.MemoryBudget set: a run the reference "
+            "refuses for the budget must not complete, a run it admits must not be refused; plus random deep derivations")
+
+
+def check_C06(tier):
+    return run_check("C06", tier, stages_C06(tier), C06_RULE,
+                     assumptions=EVAL_ASSUME + ["vm.MemoryBudget is set by the harness single-threaded and restored",
+                                                "unoptimized programs only: a range the optimizer folds at compile "
+                                                "time is not created during the run"])
+
+
+# ---------------------------------------------------------------------------
+# C07
+
+def hist_cfg(maxlen, budget, invariants=("HEmit", "FreshEquiv", "PrologueResets")):
+    return vf.cfg_text({"MaxLen": maxlen, "Budget": budget, "EmitMode": "cases", "OperandMod": 65536},
+                       init="HInit", next_="HNext", invariants=invariants)
+
+
+def stages_C07(tier):
+    out = [Stage("hist-len3-b8", "History", hist_cfg(3, 8), "C07", modes="struct:noopt,struct:opt")]
+    if tier == "thorough":
+        out.append(Stage("hist-len4-b8", "History", hist_cfg(4, 8), "C07", modes="struct:noopt,struct:opt", timeout=1500))
+        out.append(Stage("hist-len3-b5", "History", hist_cfg(3, 5), "C07", modes="struct:noopt"))
+    long_n = 60 if tier == "quick" else 200
+    out.append(Stage("hist-long", "History", hist_cfg(long_n, 12, invariants=("HEmit",)), "C07", modes="struct:noopt",
+                     simulate=20 if tier == "quick" else 100, depth=long_n + 1, warm=False))
+    return out
+
+
+C07_RULE = ("TLC: every history of length <= 3 (thorough: 4) over a pool of 10 (program, environment) items - plain "
+            "success, failure inside nested loops, allocating runs whose sum crosses the budget, budget failures, "
+            "descending ranges - with FreshEquiv and PrologueResets checked in every state of History.tla; each history "
+            "replayed on ONE real vm.VM value: every run must return what the specification assigns to a fresh machine "
+            "and what a real fresh VM returns; plus random histories of length 60/200 (allocation crosses the budget many "
+            "times over); non-trivial = a history of >= 2 runs")
+
+
+def check_C07(tier):
+    return run_check("C07", tier, stages_C07(tier), C07_RULE, assumptions=EVAL_ASSUME)
+
+
+# ---------------------------------------------------------------------------
+# C02, C15: the C01 corpora, compared across compilation variants
+
+def stages_variants(prop, modes, tier):
+    out = []
+    for fam, n in C01_FAMILIES[tier]:
+        out.append(Stage("%s-n%d" % (fam, n), "MC_Expr", gen_cfg(fam, n), prop, modes=modes))
+    sim_n = 300 if tier == "quick" else 4000
+    for fam in ("mixed", "builtin", "coll"):
+        out.append(Stage("%s-sim" % fam, "MC_Expr", gen_cfg(fam, 12, maxclosure=3), prop, modes=modes,
+                         simulate=sim_n, depth=14, warm=False))
+    return out
+
+
+def stages_C02(tier):
+    return stages_variants("C02", "struct:opt,struct:noopt,none:opt,none:noopt", tier)
+
+
+def stages_C15(tier):
+    return stages_variants("C15", "struct:noopt,ptr:noopt,map:noopt,none:noopt,eval", tier)
+
+
+C02_RULE = ("the expressions and environment assignments of the C01 corpora (TLC-enumerated per family up to the node "
+            "budget + random deep derivations); each compiled with Optimize(true) and Optimize(false), with and without "
+            "a declared environment type; per assignment both programs fail or both return ObsEq values (numbers equal in "
+            "kind and value, sequences element by element); an expression only the optimizer rejects must contain a "
+            "constant integer division or modulo by zero (computed by Sem!HasConstDivZero)")
+C15_RULE = ("the expressions and environment assignments of the C01 corpora; each compiled against the struct type, a "
+            "pointer to it, a map with the same members, without any type, and evaluated with Eval; per assignment all "
+            "variants that compile and succeed return ObsEq values")
+
+
+def check_C02(tier):
+    return run_check("C02", tier, stages_C02(tier), C02_RULE,
+                     assumptions=EVAL_ASSUME + ["the ConstExpr clause of the property is not exercised (no ConstExpr option in the modes)"])
+
+
+def check_C15(tier):
+    return run_check("C15", tier, stages_C15(tier), C15_RULE, assumptions=EVAL_ASSUME)
+
+
+# ---------------------------------------------------------------------------
+# C14
+
+def stages_C14(tier):
+    modes = "struct:noopt,struct:opt,ptr:noopt"
+    out = [Stage("promo-n3", "MC_Expr", gen_cfg("promo", 3), "C14", modes=modes),
+           Stage("arith-n%d" % (4 if tier == "quick" else 5), "MC_Expr", gen_cfg("arith", 4 if tier == "quick" else 5), "C14", modes=modes),
+           Stage("promo-sim", "MC_Expr", gen_cfg("promo", 7), "C14", modes=modes,
+                 simulate=400 if tier == "quick" else 5000, depth=9, warm=False)]
+    return out
+
+
+C14_RULE = ("TLC: every pair of the 12 Go numeric kinds (environment members I, I8 .. U64, F32, F with 1-3 values each, "
+            "extrema included) x every arithmetic and comparison operator (family 'promo', 1552 expressions), the "
+            "arithmetic family with literals, and random nested combinations; the real result must have the value and "
+            "kind Prim!Arith assigns under the reference rank (unsigned by width, signed by width, float32, float64; "
+            "integer division truncates; integer division by zero fails), and the kind of the real result must be the "
+            "kind the real checker.Check reports")
+
+
+def check_C14(tier):
+    return run_check("C14", tier, stages_C14(tier), C14_RULE, assumptions=EVAL_ASSUME)
+
+
+# ---------------------------------------------------------------------------
+# C18
+
+def stages_C18(tier):
+    modes = "struct:noopt,struct:opt,none:noopt"
+    n = 5 if tier == "quick" else 6
+    out = [Stage("laws-n%d" % n, "MC_Expr", gen_cfg("laws", n, emit="laws", invariants=("EmitLaws", "LawsHold")), "C18",
+                 modes=modes, timeout=1800),
+           Stage("laws-sim", "MC_Expr", gen_cfg("laws", 11, maxclosure=3, emit="laws", invariants=("EmitLaws", "LawsHold")),
+                 "C18", modes=modes, simulate=600 if tier == "quick" else 6000, depth=13, warm=False)]
+    return out
+
+
+C18_RULE = ("TLC: every expression of family 'laws' up to the node budget whose root is all(xs, p), `i in a..b` or "
+            "xs[i:] (closures nested up to depth 2/3, `#` bound to the innermost collection) yields the identities "
+            "all = not any not, none = not any, one = (count = 1), count = len filter, len map = len, all(filter(xs,p),p), "
+            "in-range = two-sided comparison, len(xs[:i]) + len(xs[i:]) = len(xs); LawsHold checks them on the reference "
+            "semantics in every state; both sides are then compiled and run for real on every member assignment: where "
+            "the reference evaluates both sides, the real results must both succeed and be equal")
+
+
+def check_C18(tier):
+    return run_check("C18", tier, stages_C18(tier), C18_RULE, assumptions=EVAL_ASSUME)
+
+
+CHECKS = {"C01": check_C01, "C02": check_C02, "C05": check_C05, "C06": check_C06, "C07": check_C07,
+          "C14": check_C14, "C15": check_C15, "C18": check_C18}
+STAGES = {"C01": stages_C01, "C02": stages_C02, "C05": stages_C05, "C06": stages_C06, "C07": stages_C07,
+          "C14": stages_C14, "C15": stages_C15, "C18": stages_C18}
 
 
 def warm():
@@ -318,14 +476,21 @@ def warm():
 
 
 def replay_one(prop, path):
-    """Re-execute one stored replay file on the current /repo."""
+    """Re-execute the stage a stored replay file came from on the current /repo
+    and report whether the same (why, source, mode) still fails."""
     f = json.load(open(path))
     binary = vf.build_harness()
-    with vf.Scratch("replay") as d:
-        inp = os.path.join(d, "one.json")
-        with open(inp, "w") as fh:
-            json.dump(f, fh)
-        out = vf.run_harness(binary, ["replay1", "-in", inp])
-        print(out)
-        res = json.loads(out.strip().splitlines()[-1])
-        return 1 if res.get("reproduced") else 0
+    for tier in ("quick", "thorough"):
+        for s in STAGES[prop](tier):
+            if s.name != f.get("stage"):
+                continue
+            acc = Acc(prop, tier)
+            run_stage(acc, binary, s)
+            hits = [g for g in acc.failures
+                    if (g.get("why"), g.get("src"), g.get("mode")) == (f.get("why"), f.get("src"), f.get("mode"))]
+            print(json.dumps({"reproduced": bool(hits), "stage": s.name, "failures_like_it": len(hits)}))
+            if hits:
+                print("VIOLATION property=%s replay=%s" % (prop, path))
+                return 1
+            return 0
+    raise vf.Infra("replay file names no known stage: %r" % f.get("stage"))
